@@ -4,6 +4,8 @@ mod alloc;
 mod codec;
 mod endpoint;
 mod fq;
+mod pipe;
+mod world;
 mod tables;
 mod util;
 
@@ -44,6 +46,19 @@ fn main() {
                 }
                 let r = e.op(&words);
                 writeln!(out, "{}", r).unwrap();
+            }
+        }
+        "world" => {
+            let mut e = world::World::new();
+            for line in stdin.lock().lines() {
+                let line = line.unwrap();
+                let words: Vec<&str> = line.split_whitespace().collect();
+                if words.is_empty() || words[0].starts_with('#') {
+                    continue;
+                }
+                let r = e.op(&words);
+                writeln!(out, "{}", r).unwrap();
+                out.flush().unwrap();
             }
         }
         "endpoint" => {
